@@ -737,6 +737,8 @@ class Interp:
     def _getattr(self, base, name, node):
         if is_unknown(base):
             return base
+        if base is None:
+            return Crash(f"AttributeError: 'NoneType' object has no attribute '{name}'")
         if isinstance(base, Ref):
             return Ref(base.name + "." + name)
         if isinstance(base, Obj):
@@ -1798,8 +1800,17 @@ class Interp:
                 raise Unsupported(f"`raise` inside `try` at line {st.lineno}")
             raise
         except _CrashSig as c:
-            if st.handlers:
-                raise Unsupported(f"an exception inside `try` at line {st.lineno} (a handler may catch it): {c.crash.why}")
+            kind = c.crash.why.split(":")[0]
+            catchers = {"Exception", "BaseException", kind} | ({"LookupError"} if kind in ("IndexError", "KeyError") else set())
+            for h_ in st.handlers:
+                names = []
+                if h_.type is None:
+                    names = ["BaseException"]
+                else:
+                    for t_ in (h_.type.elts if isinstance(h_.type, ast.Tuple) else [h_.type]):
+                        names.append(t_.id if isinstance(t_, ast.Name) else (t_.attr if isinstance(t_, ast.Attribute) else "Exception"))
+                if any(n_ in catchers for n_ in names):
+                    raise Unsupported(f"an exception inside `try` at line {st.lineno} (a handler may catch it): {c.crash.why}")
             raise
         self.run(st.orelse, fr)
         self.run(st.finalbody, fr)
